@@ -389,7 +389,7 @@ fn tag_case(i: usize) -> CaseResult {
 // ------------------------------------------------------------------------------------------------
 // negatives: text that is not a well-formed document, or a map with a non-string key
 
-const NEGATIVES: [(&str, &str); 18] = [
+const NEGATIVES: [(&str, &str); 20] = [
     ("{1: a}\n", "integer key (flow)"),
     ("1: a\n", "integer key (block)"),
     ("{[a]: b}\n", "sequence key"),
@@ -405,6 +405,9 @@ const NEGATIVES: [(&str, &str); 18] = [
     ("a: [1, 2\n", "unterminated flow sequence"),
     ("\"unterminated\n", "unterminated string"),
     ("a: 'x\n", "unterminated single-quoted string"),
+    // a stream of several documents is not *a* document
+    ("a: 1\n---\na: x\n", "second document in the stream"),
+    ("---\n{\"a\": 1}\n---\n{\"a\": 2}\n", "second document in the stream (flow)"),
     // YAML: "each of the keys is unique"
     ("a: 1\nb: 2\na: 3\n", "duplicate key (block)"),
     ("{a: 1, a: 2}\n", "duplicate key (flow)"),
